@@ -1,5 +1,6 @@
 import Ivg.Lemmas.Options
-import Ivg.Gen.Tie
+import Ivg.Gen.Tie.Globals
+import Ivg.Gen.Tie.ParamWrites
 import Ivg.Obligations
 /-!
 # C14 — palette options
